@@ -322,4 +322,48 @@ example : (5 : Nat) ∉ keys (run cfgEx (histEx.take 3)).1
     ∧ keys (step cfgEx (run cfgEx (histEx.take 3)).1 3 (.init (some 7) 5 none (some "2024-11-05"))).1
         = [7, 9, 5] := by decide
 
+theorem filter_sublist_of_imp {α : Type} (p q : α → Bool) (l : List α) (h : ∀ x, p x = true → q x = true) :
+    (l.filter p).Sublist (l.filter q) := by
+  induction l with
+  | nil => simp
+  | cons x l ih =>
+    simp only [List.filter_cons]
+    cases hp : p x
+    · cases hq : q x
+      · simpa using ih
+      · simpa using ih.cons x
+    · simp only [h x hp, if_true]
+      exact ih.cons₂ x
+
+/-- **A sweep is idempotent, monotone in the limit and in the clock.**  For every store (reachable
+or not), every clock value and every limit: a second `cleanup_expired` at the same clock value
+with the same limit removes nothing; a more generous limit keeps every session a stricter one
+keeps; and a session removed at clock value `now` would also have been removed at any later
+clock value had nothing touched it (expiry never "un-expires"). -/
+theorem c19_cleanup_idempotent_monotone {ι κ ν : Type} (s : Store ι κ ν) (now now' a a' : Int) :
+    cleanup now a (cleanup now a s).1 = ((cleanup now a s).1, 0)
+    ∧ (a ≤ a' → (cleanup now a s).1.Sublist (cleanup now a' s).1)
+    ∧ (now ≤ now' → (cleanup now' a s).1.Sublist (cleanup now a s).1) := by
+  refine ⟨?_, ?_, ?_⟩
+  · simp only [cleanup, List.filter_filter, Bool.and_self, Prod.mk.injEq, true_and]
+    rw [List.length_eq_zero_iff, List.filter_eq_nil_iff]
+    intro p hp
+    cases h : expired now a p.2 <;> simp [h]
+  · intro h
+    simp only [cleanup]
+    apply filter_sublist_of_imp
+    intro p hp
+    simp only [expired, Bool.not_eq_true', decide_eq_false_iff_not] at hp ⊢
+    omega
+  · intro h
+    simp only [cleanup]
+    apply filter_sublist_of_imp
+    intro p hp
+    simp only [expired, Bool.not_eq_true', decide_eq_false_iff_not] at hp ⊢
+    omega
+
+/-- non-vacuity: a sweep that removes something, repeated; a stricter and a more generous limit -/
+example : (cleanup 11 10 (run cfgEx (histEx.take 3)).1).2 ≠ 0
+    ∧ (cleanup 11 10 (cleanup 11 10 (run cfgEx (histEx.take 3)).1).1).2 = 0 := by decide
+
 end Verif.Props.C19
